@@ -27,6 +27,13 @@ func (e *Engine) caseView(st *State, v Slice, upper bool, what string) Slice {
 		}
 		if b.IsConst() {
 			ch := byte(b.Val)
+			if ch >= 0x80 {
+				// a concrete non-ASCII byte among symbolic ones: the element-wise summary would be
+				// wrong (Unicode case mapping / folding); fully concrete inputs never get here
+				kk := e.i64(uint64(k))
+				inView := c.And(c.Ule(v.Off, kk), c.Ult(kk, c.Add(v.Off, v.Len)))
+				e.assume(st, c.Not(inView), what+": ASCII-only summary (non-ASCII bytes are outside the claim)")
+			}
 			if upper && ch >= 'a' && ch <= 'z' {
 				ch -= 32
 			} else if !upper && ch >= 'A' && ch <= 'Z' {
@@ -155,32 +162,57 @@ func (e *Engine) variadicArgs(st *State, v Value) []Value {
 
 func registerStr(e *Engine) {
 	I := e.intr
+	// Fully concrete inputs are computed by the real functions (Unicode case mapping and folding
+	// included: "a\u017fk" folds to "ask", "\u212a" lowers to "k"); symbolic inputs use the
+	// element-wise ASCII summary under a recorded assumption.
+	concSl := func(st *State, v Slice) (string, bool) {
+		if v.Obj == 0 {
+			return "", v.Len.IsConst() && v.Len.Val == 0
+		}
+		return e.strConcrete(st, e.sliceAsStr(v))
+	}
 	I["strings.ToLower"] = func(e *Engine, st *State, th *Thread, args []Value, call *ssa.CallCommon) (Value, bool) {
 		s := args[0].(Str)
-		if s.IsConst {
-			return Str{IsConst: true, S: strings.ToLower(s.S)}, true
+		if cs, ok := e.strConcrete(st, s); ok {
+			return Str{IsConst: true, S: strings.ToLower(cs)}, true
 		}
 		return Str{Sl: e.caseView(st, s.Sl, false, "strings.ToLower")}, true
 	}
 	I["strings.ToUpper"] = func(e *Engine, st *State, th *Thread, args []Value, call *ssa.CallCommon) (Value, bool) {
 		s := args[0].(Str)
-		if s.IsConst {
-			return Str{IsConst: true, S: strings.ToUpper(s.S)}, true
+		if cs, ok := e.strConcrete(st, s); ok {
+			return Str{IsConst: true, S: strings.ToUpper(cs)}, true
 		}
 		return Str{Sl: e.caseView(st, s.Sl, true, "strings.ToUpper")}, true
 	}
 	I["bytes.ToLower"] = func(e *Engine, st *State, th *Thread, args []Value, call *ssa.CallCommon) (Value, bool) {
+		if cs, ok := concSl(st, args[0].(Slice)); ok && !isASCII(cs) {
+			return e.strToSlice(st, Str{IsConst: true, S: strings.ToLower(cs)}), true
+		}
 		return e.caseView(st, args[0].(Slice), false, "bytes.ToLower"), true
 	}
 	I["bytes.ToUpper"] = func(e *Engine, st *State, th *Thread, args []Value, call *ssa.CallCommon) (Value, bool) {
+		if cs, ok := concSl(st, args[0].(Slice)); ok && !isASCII(cs) {
+			return e.strToSlice(st, Str{IsConst: true, S: strings.ToUpper(cs)}), true
+		}
 		return e.caseView(st, args[0].(Slice), true, "bytes.ToUpper"), true
 	}
 	I["bytes.EqualFold"] = func(e *Engine, st *State, th *Thread, args []Value, call *ssa.CallCommon) (Value, bool) {
+		if ca, ok := concSl(st, args[0].(Slice)); ok {
+			if cb, ok := concSl(st, args[1].(Slice)); ok {
+				return e.C.Bool(strings.EqualFold(ca, cb)), true
+			}
+		}
 		a := e.caseView(st, args[0].(Slice), false, "bytes.EqualFold")
 		b := e.caseView(st, args[1].(Slice), false, "bytes.EqualFold")
 		return e.strEq(st, e.sliceAsStr(a), e.sliceAsStr(b)), true
 	}
 	I["strings.EqualFold"] = func(e *Engine, st *State, th *Thread, args []Value, call *ssa.CallCommon) (Value, bool) {
+		if ca, ok := e.strConcrete(st, args[0].(Str)); ok {
+			if cb, ok := e.strConcrete(st, args[1].(Str)); ok {
+				return e.C.Bool(strings.EqualFold(ca, cb)), true
+			}
+		}
 		a := e.strToSlice(st, args[0].(Str))
 		b := e.strToSlice(st, args[1].(Str))
 		return e.strEq(st, e.sliceAsStr(e.caseView(st, a, false, "strings.EqualFold")), e.sliceAsStr(e.caseView(st, b, false, "strings.EqualFold"))), true
@@ -197,4 +229,13 @@ func registerStr(e *Engine) {
 		e.setCell(st, p, s)
 		return Iface{T: types.NewPointer(et), V: p}, true
 	}
+}
+
+func isASCII(s string) bool {
+	for i := 0; i < len(s); i++ {
+		if s[i] >= 0x80 {
+			return false
+		}
+	}
+	return true
 }
